@@ -6,7 +6,9 @@
    the harness (patterns already parsed to simplified regexp/syntax trees).                        *)
 EXTENDS Regex, Position, TLC
 
-CONSTANT DevUnderflowPanics   \* TRUE reproduces the pinned code: Pop/Return with only Root on the stack panics
+CONSTANTS DevUnderflowPanics,     \* TRUE reproduces the pinned code: Pop/Return with only Root on the stack panics (repaired)
+          DevBackrefInvalidUtf8   \* TRUE reproduces a recorded finding: a back-reference to a group containing an invalid
+                                  \* UTF-8 byte is a lexing error (the expanded pattern does not compile) instead of a literal match
 
 Top(stack) == stack[Len(stack)]
 PopStack(stack) == SubSeq(stack, 1, Len(stack) - 1)
@@ -49,6 +51,8 @@ Scan(c, name, rs, k, s, i, grp, poss) ==
   IF k > Len(rs) THEN [kind |-> "none"]
   ELSE IF rs[k].act = "return" THEN [kind |-> "return"]
   ELSE IF \E n \in 1..Len(rs[k].backrefs) : rs[k].backrefs[n] + 1 > Len(grp) THEN [kind |-> "badref", k |-> k]
+  ELSE IF DevBackrefInvalidUtf8 /\ \E n \in 1..Len(rs[k].backrefs) : \E j \in 1..Len(grp[rs[k].backrefs[n] + 1]) : grp[rs[k].backrefs[n] + 1][j] = 65533
+       THEN [kind |-> "badref", k |-> k]
   ELSE LET m == RuleMatch(c, name, rs[k], k, s, i, grp, poss) IN
        IF m.len < 0 THEN Scan(c, name, rs, k + 1, s, i, grp, poss) ELSE [kind |-> "match", k |-> k, len |-> m.len, grps |-> m.grps]
 
